@@ -7,6 +7,7 @@ package sim
 
 import (
 	"fmt"
+	"hash/fnv"
 	"sort"
 	"sync"
 	"testing"
@@ -75,6 +76,20 @@ func (s *Sched) pick() (string, chan struct{}, bool) {
 	return k, ch, true
 }
 
+// distinctSchedules collects the hashes of all schedule-choice sequences this worker process has executed.
+var distinctSchedules = map[uint64]struct{}{}
+
+func (s *Sched) record() {
+	h := fnv.New64a()
+	for _, c := range s.Choices {
+		h.Write([]byte(c))
+		h.Write([]byte{0})
+	}
+	if len(s.Choices) > 1 {
+		distinctSchedules[h.Sum64()] = struct{}{}
+	}
+}
+
 // RunBubble runs tasks (each in its own goroutine) inside one synctest bubble under the scheduler.
 // It returns a liveness error if the bubble ends with blocked goroutines that nobody can release.
 func (s *Sched) RunBubble(t *testing.T, tasks []func()) (live error) {
@@ -84,7 +99,7 @@ func (s *Sched) RunBubble(t *testing.T, tasks []func()) (live error) {
 		}
 	}()
 	inBubble = true
-	defer func() { inBubble = false }()
+	defer func() { inBubble = false; s.record() }()
 	synctest.Test(t, func(t *testing.T) {
 		var wg sync.WaitGroup
 		done := make(chan struct{})
